@@ -91,6 +91,20 @@ pub struct Cfg {
     pub signer: Option<String>,
     /// call .source_date() after the files have been added (builder calls commute)
     pub late_source_date: bool,
+    /// pass the source date as a chrono DateTime at this UTC offset (seconds east) instead of as an integer:
+    /// another spelling of the same instant
+    pub source_date_offset: Option<i32>,
+}
+
+fn with_source_date(b: PackageBuilder, sd: u32, off: Option<i32>) -> PackageBuilder {
+    match off {
+        None => b.source_date(sd),
+        Some(o) => {
+            let dt = chrono::DateTime::from_timestamp(sd as i64, 0).expect("in range")
+                .with_timezone(&chrono::FixedOffset::east_opt(o).expect("offset"));
+            b.source_date(dt)
+        }
+    }
 }
 
 pub const SCRIPT_KINDS: [&str; 9] = ["pre_install", "post_install", "pre_uninstall", "post_uninstall", "pre_trans", "post_trans", "pre_untrans", "post_untrans", "verify"];
@@ -204,7 +218,7 @@ pub fn builder(cfg: &Cfg, wd: &Workdir) -> Result<PackageBuilder, rpm::Error> {
     if let Some(x) = &cfg.cookie { b = b.cookie(x); }
     if let Some(x) = &cfg.build_host { b = b.build_host(x); }
     if let Some(c) = compression_of(&cfg.compression) { b = b.compression(c); }
-    if let (Some(sd), false) = (cfg.source_date, cfg.late_source_date) { b = b.source_date(sd); }
+    if let (Some(sd), false) = (cfg.source_date, cfg.late_source_date) { b = with_source_date(b, sd, cfg.source_date_offset); }
     for (k, s) in &cfg.scripts {
         let sc = scriptlet(s);
         b = match *k {
@@ -239,7 +253,7 @@ pub fn builder(cfg: &Cfg, wd: &Workdir) -> Result<PackageBuilder, rpm::Error> {
         let src = wd.source(i, f);
         b = b.with_file(&src, file_options(f)?)?;
     }
-    if let (Some(sd), true) = (cfg.source_date, cfg.late_source_date) { b = b.source_date(sd); }
+    if let (Some(sd), true) = (cfg.source_date, cfg.late_source_date) { b = with_source_date(b, sd, cfg.source_date_offset); }
     Ok(b)
 }
 
